@@ -10,6 +10,7 @@
 import GM.Model.RenderIR
 import GM.Proof.RenderIR
 import GM.Props.ConvertE2E
+import GM.Props.ConvertE2EAll
 
 namespace GM.Props.C10
 open GM
@@ -218,5 +219,22 @@ theorem convert_tree_independent_of_options : type_of% @GM.Props.ConvertE2E.conv
 /-- (re-export of `GM.Props.ConvertE2E.convert_unsafe_only_changes_raw`) `convert_unsafe_only_changes_raw`: two conversions of the same source that differ only in `Unsafe` are emissions of
     the same piece list that agree on every piece that is neither raw HTML nor a dangerous destination. -/
 theorem convert_unsafe_only_changes_raw : type_of% @GM.Props.ConvertE2E.convert_unsafe_only_changes_raw := @GM.Props.ConvertE2E.convert_unsafe_only_changes_raw
+
+/-- (re-export of `GM.Props.ConvertE2EAll.convert_options_orthogonal_total`) **`convert_options_orthogonal_total`** — C10 END TO END, no hypothesis on the source: for EVERY source there is ONE piece list
+    `ps`, computed without the three renderer options, such that for EVERY option set (all eight) `convertCore` answers HTML and
+    that HTML is (a) the concatenation of `emit o.xhtml o.hardWraps o.unsafe_` over `ps`; (b) — XHTML — the concatenation over
+    the HardWraps-rewritten list of bytes that do not depend on XHTML, except that each void end is `>` / ` />`; (c) — HardWraps
+    — the HardWraps-off emission with `<br` + void end in front of each soft break; (d) — Unsafe — the safe emission of every
+    piece that is neither raw HTML nor a destination classified dangerous. The error alternative of `convert_options_orthogonal`
+    is gone. -/
+theorem convert_options_orthogonal_total : type_of% @GM.Props.ConvertE2EAll.convert_options_orthogonal_total := @GM.Props.ConvertE2EAll.convert_options_orthogonal_total
+
+/-- (re-export of `GM.Props.ConvertE2EAll.convert_one_tree_for_all_options`) **`convert_one_tree_for_all_options`**: for every source the parse phases answer ONE tree, and for every option set the
+    outcome is `render` of that tree -/
+theorem convert_one_tree_for_all_options : type_of% @GM.Props.ConvertE2EAll.convert_one_tree_for_all_options := @GM.Props.ConvertE2EAll.convert_one_tree_for_all_options
+
+/-- (re-export of `GM.Props.ConvertE2EAll.convert_unsafe_only_changes_raw_total`) **`convert_unsafe_only_changes_raw_total`**: the safe and the unsafe conversion of every source both answer HTML, as emissions
+    of one piece list that agree on every piece that is neither raw HTML nor a dangerous destination -/
+theorem convert_unsafe_only_changes_raw_total : type_of% @GM.Props.ConvertE2EAll.convert_unsafe_only_changes_raw_total := @GM.Props.ConvertE2EAll.convert_unsafe_only_changes_raw_total
 
 end GM.Props.C10
